@@ -16,7 +16,7 @@ _CONCEPTS = ['have-mod-91', 'own-01', 'be-located-at-91', 'rel-01', 'c-91', 'inc
 
 
 @st.composite
-def custom_tables(draw, reifications=True, normalizations=True, open_patterns=False, chains=False):
+def custom_tables(draw, reifications=True, normalizations=True, open_patterns=False, chains=False, concept_roles=False):
     """Random role table with the two restrictions the laws need (DESIGN section 3):
     (i) inversion-unambiguous: never both r and r-of defined, and defined roles end in at most one "-of";
     (ii) normalisation values are not keys and are double-inversion fixed points."""
@@ -43,6 +43,9 @@ def custom_tables(draw, reifications=True, normalizations=True, open_patterns=Fa
         spec['top_role'] = pick(draw, [':TOP', ':top', ':ROOT', ':root-of'])
     if 'top_role' in spec:
         spec['pool'] = spec['pool'] + [spec['top_role']]
+    if concept_roles and chance(draw, 1, 5):
+        spec['concept_role'] = ':isa'
+        spec['pool'] = spec['pool'] + [':isa']
     defined_lits = [':' + r for r in lits + ofs]
     if normalizations and len(defined_lits) >= 2 and chance(draw, 2, 3):
         # AMR style crossed pairs  :a-of -> :b , :b-of -> :a   (values are defined, hence fixed points, and not keys)
